@@ -98,6 +98,8 @@ pub struct Acc {
     samples: Mutex<Vec<J>>,
     counters: Mutex<BTreeMap<String, u64>>,
     notes: Mutex<Vec<String>>,
+    /// for engines whose cases are distinct by rank and counted in child processes
+    pub nontrivial_counted: AtomicU64,
 }
 
 pub fn fnv(s: &[u8]) -> u64 {
@@ -125,6 +127,7 @@ impl Acc {
             samples: Mutex::new(vec![]),
             counters: Mutex::new(BTreeMap::new()),
             notes: Mutex::new(vec![]),
+            nontrivial_counted: AtomicU64::new(0),
         }
     }
     pub fn eval(&self, n: u64) {
@@ -425,7 +428,7 @@ pub fn finish(fin: Finish, acc: &Acc) -> i32 {
     // evidence
     let evaluations = acc.evaluations.load(Ordering::Relaxed);
     let outcomes = acc.outcomes.lock().unwrap().clone();
-    let nontrivial = acc.nontrivial.lock().unwrap().len() as u64;
+    let nontrivial = acc.nontrivial.lock().unwrap().len() as u64 + acc.nontrivial_counted.load(Ordering::Relaxed);
     let mut coverage = Map::new();
     coverage.insert("evaluations".into(), json!(evaluations));
     coverage.insert("distinct_nontrivial".into(), json!(nontrivial));
